@@ -173,7 +173,19 @@ Proof.
   - destruct running as [[? ?]|]; [|done]. by apply id_ok_app.
 Qed.
 
-(* ---------- I7: no lost wake-up (theorem 3) ---------- *)
+(* ---------- I7: no lost wake-up (theorem 3) ----------
+   While poll_fn is present one of these holds (definitions in Model.v):
+     wake_pending      a wake thread will certainly enqueue a poll job or take poll_fn (it is about to call a LIVE
+                       PipeWaker, or is inside PipeContext::poll before its enqueue / take);
+     job_queued        a poll job is in the object's queue;
+     running_or_armed  a poll job is in its body and its OWN PipeWaker is live (or not created yet, or it is about to
+                       clear poll_fn) - or no poll job is in its body and the input's registered waker is a live
+                       PipeWaker and the input has had nothing to report since (ready = [], not ended).
+   The last clause may only be used when no job is in its body because a Pending poll_next REPLACES the registered
+   waker by the job's own; hence for a job in its body what matters is its own waker: if a duplicate wake consumed
+   it, that wake is/was a potent wake thread and has left (or will leave) a queued job, which cannot start before
+   the running one has finished.  Every availability event in the "armed" state takes the live waker and creates a
+   potent wake thread.  Quiescent + poll_fn present therefore means "armed": nothing available and not ended. *)
 Definition inv_A (s : state) : Prop :=
   s.(pollfn) = true -> wake_pending s || job_queued s || running_or_armed s = true.
 
